@@ -104,14 +104,18 @@ func Harness_C14_logs() {
 }
 
 // Harness_C14_shapes: shaped tables (multi-level indexes, object index, log index, padding) are well-formed.
-// bounds: the shapes of Harness_C01_table_shapes (6 quick, 8 thorough)
+// bounds: the shapes of Harness_C01_table_shapes (6 quick, 8 thorough) plus a table of 44 refs sharing 3 object ids (position lists of 9..20 entries in the object index)
 // covers: done
 func Harness_C14_shapes() {
 	n := nShapesQuick
 	if VerifTier() > 0 {
 		n = nShapesAll
 	}
-	sh := pickShape(VerifChoose(n))
+	which := VerifChoose(n + 1)
+	if which == n {
+		which = 8 // shared objects: multi-entry position lists in the object index
+	}
+	sh := pickShape(which)
 	refs, logs := buildShape(sh)
 	if len(refs) > 0 && refs[len(refs)-1].Value != nil {
 		refs[len(refs)-1].Value[2] = VerifU8()
@@ -207,7 +211,10 @@ func Harness_C14_stack() {
 		if len(nm) < 4 || nm[len(nm)-4:] != ".ref" {
 			continue
 		}
-		data, err := ioutil.ReadFile(dir + "/" + nm)
+		var data []byte
+		var err error
+		path := dir + "/" + nm
+		VerifQuiet(func() { data, err = ioutil.ReadFile(path) })
 		VerifAssert(err == nil, "read-table-file")
 		t := specDecodeTable(data)
 		VerifAssert(t.ok, "wf-decodes")
